@@ -4,7 +4,7 @@ import struct
 from harness import core, connlib, serverlib
 
 PROP = "C11"
-LEAN_MODULES = ["MpgsModel.Props.C11"]
+LEAN_MODULES = ["MpgsModel.Props.C11", "MpgsModel.Props.C11Run"]
 MODEL_MODULES = ["MpgsModel.Model.Server", "MpgsModel.Model.ToyAead"]
 NS = "Mpgs.Server."
 THEOREMS = [
@@ -14,8 +14,14 @@ THEOREMS = [
     (NS + "C11_pool_gating", "full"),
     (NS + "C11_no_keepalive_before_connected", "full"),
     (NS + "C11_hello_reply_once", "full"),
+    (NS + "C11_update_every_iteration", "full"),
+    (NS + "C11_loop_never_stalls", "full"),
 ]
 ASSUMPTIONS = [
+    "whole runs (C11_update_every_iteration, C11_loop_never_stalls): every iteration of the loop model reaches handler.update exactly once "
+    "and a run of n iterations delivers n update events, for every batch (any bytes, addresses, number), pool content, handler behaviour "
+    "(raising from every event included) and clock: in the model every try/except of the code is a `contained` event and there is no other "
+    "exit; that these containment points are the real ones is what the differential run of the unmodified loop checks",
     "'cannot stop the server': the loop model is a total function in which every exception path of the code is an explicit branch "
     "(contained); that the model knows every path is what the differential on hostile streams validates; exceptions raised by C "
     "extensions on inputs the model deems fine, OS errors from sendto and CPU exhaustion by floods of valid hellos are outside",
